@@ -42,9 +42,22 @@ def isConvOp (op : String) : Bool :=
 
 def isTextOp (op : String) : Bool := op == "h_from_str" || op.startsWith "p_" || op == "h_fmt" || op == "f_fmt" || op == "rt"
 
+/-- `wq_<fn>`: accessor functions of `Wrapping<F>` (`wrapping.rs`: forwarders to the functions of `F`), answered by the `ExtBits` rows of `<fn>`;
+`wq_display` is `Display for Wrapping<F>` = `Display for F` with the default format -/
+def wqOp (op : String) : Option String := if op.startsWith "wq_" then some (op.drop 3).toString else none
+def wqAnswer (spec : Bool) (prof : Profile) (L : Layout) (fn : String) (args : List String) : Option String :=
+  if fn == "display" then
+    match args with
+    | [x] => DriverText.model prof L "f_fmt" ["d", "n", "0", "0", "0", "-", "-", x]
+    | _ => none
+  else match args.mapM String.toInt? with
+    | some ints => ((if spec then ExtBits.spec L fn ints else ExtBits.model L fn ints)).map (Outcome.render prof)
+    | none => none
+
 /-- model answer, already rendered for the profile (`none`: no model for this request) -/
 def modelOf (prof : Profile) (L : Layout) (op : String) (args : List String) : Option String :=
-  if ExtFrom.isOp op then ExtFrom.model prof L op args
+  if let some fn := wqOp op then wqAnswer false prof L fn args
+  else if ExtFrom.isOp op then ExtFrom.model prof L op args
   else if op == "wprog" then (DriverWrap.run L prof args).map (·.1)
   else if op == "fprog" then (ExtOps.run L prof args).map (·.1)
   else if codecOps.contains op then DriverCodec.model L op args
@@ -59,7 +72,8 @@ def modelOf (prof : Profile) (L : Layout) (op : String) (args : List String) : O
 
 /-- documented answer, rendered (`none`: unconstrained) -/
 def specOf (prof : Profile) (L : Layout) (op : String) (args : List String) : Option String :=
-  if ExtFrom.isOp op then ExtFrom.spec prof L op args
+  if let some fn := wqOp op then wqAnswer true prof L fn args
+  else if ExtFrom.isOp op then ExtFrom.spec prof L op args
   else if op == "wprog" then (DriverWrap.run L prof args).map (·.2)
   else if op == "fprog" then (ExtOps.run L prof args).map (·.2)
   else if codecOps.contains op then DriverCodec.spec L op args
@@ -74,7 +88,8 @@ def isSpecial (ans : String) : Bool := ans == "P" || ans.startsWith "E;" || ans.
 
 def argsInRange (L : Layout) (op : String) (args : List String) : Bool :=
   -- operands of typed arithmetic requests are bit patterns of the layout (the driver rejects others)
-  if ExtBits.handles op then (match args.mapM String.toInt? with | some ints => ExtBits.argsOk L op ints | none => false)   -- extension Bits: shift amounts are `u32` / `T` values
+  if (wqOp op).isSome then args.all (fun a => match a.toInt? with | some i => decide (inRange L i) | none => false)
+  else if ExtBits.handles op then (match args.mapM String.toInt? with | some ints => ExtBits.argsOk L op ints | none => false)   -- extension Bits: shift amounts are `u32` / `T` values
   else if op.startsWith "h_div_rem_from" || op.startsWith "t_" || isTextOp op || op == "wprog" || op == "fprog" || op == "decode" || op.startsWith "from_" || isConvOp op || ExtFrom.isOp op then true
   else args.all (fun a => match a.toInt? with | some i => decide (inRange L i) | none => true)
 
